@@ -10,7 +10,7 @@ CONSTANTS
   PerIns = 2
   PerFl = 1
   LockScope = "fix"
-  SigMode = "proc"
+  SigMode = "label"
 VIEW View
 INVARIANTS TypeOK AllPersistedOnce NoCrash FlushHoldsLock NeverTwice LocInternOK TxnOwner EmitCase
 PROPERTIES Terminates Refines
